@@ -20,6 +20,7 @@ structure CliCase where
   frames : List Msg           -- what the service sends back for the first request, then EOF
   listening : Bool := false   -- a scripted service listens on `listen`
   listen : String := ""
+  hold : Bool := false        -- the service keeps the connection open after the frames (the harness ends the tool)
 
 structure CliObs where
   conns : Nat
@@ -72,7 +73,10 @@ def addressPart (url : String) : String :=
 
 def P_C20 (c : CliCase) (o : CliObs) : Verdict :=
   if !o.clean then some "stdout-is-not-a-sequence-of-json-documents" else
-  if o.exit.isNone then some "tool-did-not-terminate" else
+  if o.exit.isNone && !c.hold then some "tool-did-not-terminate" else
+  -- the argument names another address than the one the service listens on: it must not be reached
+  if c.listening && o.conns > 0 && addressPart c.url != c.listen then
+    some "service-contacted-although-the-argument-names-another-address (not split at the last slash)" else
   -- a well-formed ADDRESS/INTERFACE.METHOD whose address is the one the service listens on must reach it
   if c.listening && (url_ok c) && o.conns == 0 then some "address-method-argument-not-split-at-the-last-slash (service not contacted)" else
   if o.conns == 0 || o.log.isEmpty then
@@ -97,7 +101,12 @@ def P_C20 (c : CliCase) (o : CliObs) : Verdict :=
          else some "printed-value-differs-from-the-reply-parameters")
       else
         let allGood := good.length == reads.length && finalSeen
-        if allGood && o.exit != some 0 then some "exit-status-nonzero-although-every-reply-arrived-without-error"
+        -- a stream that is still open: everything received so far is on stdout (checked above) and the tool waits
+        if c.hold && good.length == reads.length && !finalSeen then
+          (if o.exit.isSome then some "tool-ended-although-the-stream-is-still-open"
+           else if o.report.isSome || o.otherMsg then some "error-message-while-the-stream-is-still-open" else none)
+        else if o.exit.isNone then some "tool-did-not-terminate"
+        else if allGood && o.exit != some 0 then some "exit-status-nonzero-although-every-reply-arrived-without-error"
         else if !allGood && o.exit == some 0 then some "exit-status-0-although-a-reply-was-an-error-or-missing"
         else
           -- the first reply that is an error must be reported by name and parameters
